@@ -82,6 +82,11 @@ CLAIMED = {
    'Decides (docgen builds): the only dynamic text render_html appends is a chunk escaped for both < and >; tags opened per Block are closed by its BlockEnd arm and change_style nests correctly; every BlockStart is closed on all paths; '
    'the roff Spaces rule neutralises space AND newline, the Special rules write \\& at line start before . or \', at_line_start is tracked; unescaped roff source is constant at every call site; extract_sections records the level and '
    'descends into every HelpItem::Command of the raw item list; html/markdown/manpage reuse the --help pipeline. Does NOT decide full roff/markdown correctness.', 'DESIGN.md section 5 C16'),
+ 'C17': C('translation validation: canonical MIR terms of the derive-generated function vs the documented hand-written equivalent, over a base family plus a VERIF_SEED-generated family',
+   'For each family member the function generated by the current bpaf_derive and the combinator function prescribed by the documented rules (independent model, witness/derive_family/gen.py) are compiled and reduced to canonical '
+   'terms (resolved callees with generic arguments, constants, aggregate shapes, closure statement shapes; order-insensitive builder chains folded). Equal terms => same parser value => identical outcome on every argv. '
+   '14 base members (one per rule/annotation) + 30 (quick) / 300 (thorough) seeded members. Definitions outside the family are not covered; the macro runs at compile time on the witnesses, nothing of bpaf is executed.', 'DESIGN.md section 5 C17',
+   category='translation_validation'),
  'C18': C('who-may-call census incl. fn-item references, name provenance, precedence by edge-restricted reachability, single-conversion join',
    'Decides: std::env is used only at the listed sites with names from the declared env list; the flag/argument consumers consult the command line on every path and the environment only on '
    'the absent edge; env and command-line values share the one parse_os_str conversion; both-absent exits build Missing/NoEnv which are catchable. Does NOT decide wrapper behaviour (C06).', 'DESIGN.md section 5 C18'),
